@@ -1,28 +1,32 @@
-(* a concrete well-formed configuration: the premises of the property theorems are satisfiable *)
+(* a concrete accepted constructor call: the premises of the property theorems are satisfiable *)
 From Coq Require Import ZArith List Bool Lia.
 Import ListNotations.
-From KD Require Import C04.Model C04.Spec C04.Lists C04.Arith.
+From KD Require Import C04.Model C04.Spec C04.Lists C04.Arith C04.Sides C04.Proofs C04.Corollaries.
 Open Scope Z_scope.
 
+(* a side sampler that yields another order on every other pass *)
 Definition ex_side : side_cfg :=
-  {| ene := Some 1; enu := Some 3; ens := Some 5; sbs := Some 2; sidx := [0; 1; 2]; slen := 3; dslen := 4 |}.
-Definition ex_cfg : cfg :=
-  {| cN := 10; dsN := 11; cB := 2; drop_last := true; cD := Some 4; bud := Updates 7; sides := [ex_side; ex_side] |}.
+  {| ene := Some 1; enu := Some 3; ens := Some 5; sbs := Some 2;
+     sidx := fun p => if Nat.even p then [0; 1; 2] else [2; 0; 1]; slen := 3; dslen := 4 |}.
+Definition ex_args : ctor_args :=
+  {| a_N := 10; a_dsN := 11; a_B := 2; a_drop_last := true; a_D := Some 4;
+     a_epochs := None; a_updates := Some 7; a_samples := None;
+     a_start_epoch := None; a_start_update := None; a_start_sample := None;
+     a_sides := [ex_side; ex_side] |}.
+Definition ex_cfg : cfg := cfg_of_args ex_args.
 Definition ex_iter (e : Z) : list Z := [3; 1; 4; 1; 5; 9; 2; 6; 5; 10].
 
-Lemma ex_side_wf : wf_side ex_side.
+Lemma ex_ctor : ctor ex_args = Ok ex_cfg 0 0 0.
+Proof. reflexivity. Qed.
+
+Lemma ex_env : env_ok ex_cfg ex_iter.
 Proof.
-  unfold wf_side, ex_side. cbn.
-  repeat split; try lia; try reflexivity; intros n H; inversion H; lia.
+  split; [intros e; reflexivity|]. split; [|cbn; lia].
+  cbn. repeat constructor; cbn; try lia; intros p; destruct (Nat.even p); reflexivity.
 Qed.
 
 Lemma ex_wf : WF ex_cfg ex_iter.
-Proof.
-  constructor.
-  - cbn. lia.
-  - cbn. lia.
-  - intros d H. cbn in H. inversion H; subst. cbn. repeat split; try lia. exists 2. lia.
-  - intros e. reflexivity.
-  - cbn. repeat constructor; apply ex_side_wf.
-  - cbn. lia.
-Qed.
+Proof. exact (ctor_accepts_wf ex_args ex_cfg 0 0 0 ex_iter ex_ctor ex_env). Qed.
+
+Lemma ex_side_wf : wf_side ex_side.
+Proof. pose proof (wf_sides _ _ ex_wf) as H. now inversion H. Qed.
